@@ -74,6 +74,10 @@ def scenarios(rng, thorough: bool):
     add("T15-big", "tool", S_old, content=big, base="current")
     add("T19-target-is-directory", "tool", S_dir, content=new)
     add("T18-noncanonical-content", "tool", S_old, content=noncanon.replace(f"A::{a}", f"A::{b}"), base="current")
+    # an existing file whose TEXT is already canonical but whose BYTES are not (CRLF line ends): "nothing to do" must not be decided on the text
+    S_crlf = {"content": old.replace("\n", "\r\n"), "mode": mode2}
+    add("T20-normalize-crlf-file", "tool", S_crlf, mode="normalize")
+    add("T21-same-text-over-crlf-file", "tool", S_crlf, content=old)
     # atomic_write_octave (writes the text it is given)
     add("A01-new", "atomic", S_absent, content=new)
     add("A02-overwrite", "atomic", S_old, content=new)
@@ -99,6 +103,11 @@ def scenarios(rng, thorough: bool):
     return out
 
 
+def as_read(text):
+    """the text of a file as the tools read it (text mode, universal newlines): what base_hash and the pipeline are about."""
+    return None if text is None else text.replace("\r\n", "\n").replace("\r", "\n")
+
+
 def real_args(sc, sb: C.Sandbox):
     op = sc["op"]
     args = {"target_path": sb.target}
@@ -107,7 +116,7 @@ def real_args(sc, sb: C.Sandbox):
     elif op["mode"] == "changes":
         args["changes"] = op["changes"]
     if op.get("base") == "current":
-        args["base_hash"] = C.sha(sc["state"]["content"] or "")
+        args["base_hash"] = C.sha(as_read(sc["state"]["content"]) or "")
     elif op.get("base") == "stale":
         args["base_hash"] = C.sha(op["stale"])
     if op.get("dry"):
@@ -118,7 +127,7 @@ def real_args(sc, sb: C.Sandbox):
 def base_text(sc):
     op = sc["op"]
     if op.get("base") == "current":
-        return sc["state"]["content"] or ""
+        return as_read(sc["state"]["content"]) or ""
     if op.get("base") == "stale":
         return op["stale"]
     return None
@@ -134,7 +143,7 @@ def pure_failure(sc):
         if r[0] == "err":
             return "E_PARSE" if entry == "cli" else r[1]
         return None
-    existing = sc["state"].get("content")
+    existing = as_read(sc["state"].get("content"))
     if existing is None:
         return None
     r = C.canonical_of(existing)
